@@ -33,6 +33,13 @@ Has(e, c) == \E i \in 1..Len(e.chk) : e.chk[i] = c
 \* evaluates to cond; prints the clause name and event index when it is false
 Chk(name, idx, cond) == cond \/ (PrintT(<<"FAIL", name, idx>>) /\ FALSE)
 
+\* the same, and when the clause fails additionally reports whether the signature `fcond` of the listed
+\* finding `fname` holds for this event (known_findings.json matches on that marker)
+ChkF(name, idx, cond, fname, fcond) ==
+  cond \/ (PrintT(<<"FAIL", name, idx>>) /\ (fcond => PrintT(<<"FINDING", fname, idx>>)) /\ FALSE)
+ChkF2(name, idx, cond, f1, c1, f2, c2) ==
+  cond \/ (PrintT(<<"FAIL", name, idx>>) /\ (c1 => PrintT(<<"FINDING", f1, idx>>)) /\ (c2 => PrintT(<<"FINDING", f2, idx>>)) /\ FALSE)
+
 (***************************************************************************)
 (* Clause groups                                                           *)
 (***************************************************************************)
@@ -79,6 +86,16 @@ BooleanOp(e, idx) == BooleanOpOK(e, idx) /\ UNCHANGED sysvars
 (* bottom>> with left < right and top < bottom (y grows downwards in the   *)
 (* library's naming; only the interval structure matters here).            *)
 (***************************************************************************)
+\* a closed path without self-contact: no two non-adjacent edges meet, adjacent ones share only their vertex
+SimplePath(path) ==
+  LET n == Len(path) IN
+  /\ n >= 3
+  /\ \A i \in 1..n : path[i] # Nxt(path, i)
+  /\ \A i, j \in 1..n : i < j =>
+       LET a == path[i] b == Nxt(path, i) c == path[j] d == Nxt(path, j) IN
+       IF j = i + 1 THEN ~OnSeg(d, a, b) /\ ~OnSeg(a, c, d)
+       ELSE IF i = 1 /\ j = n THEN ~OnSeg(c, a, b) /\ ~OnSeg(b, c, d)
+       ELSE ~SegsMeet(a, b, c, d)
 RectPath(r) == << <<r[1], r[2]>>, <<r[3], r[2]>>, <<r[3], r[4]>>, <<r[1], r[4]>> >>
 RectNonEmpty(r) == r[1] < r[3] /\ r[2] < r[4]
 InRect(r, p, g) == r[1] - g <= p[1] /\ p[1] <= r[3] + g /\ r[2] - g <= p[2] /\ p[2] <= r[4] + g
@@ -106,11 +123,33 @@ C06OK(e) ==
   \* paths entirely outside vanish
   /\ (\A k \in 1..Len(e.paths) : Len(e.paths[k]) = 0 \/ PathBoundsDisjoint(r, e.paths[k])) => e.res = <<>>
 
+\* signature of the listed finding "rectclip-even-turns": every clause of C06 holds except that inside the
+\* rectangle the winding number differs from the input's by an even number (whole turns of a
+\* self-overlapping path around the rectangle are lost: the implementation decides "path contains
+\* rectangle" by an even-odd test and closes crossings along the shorter way round the corners)
+C06EvenTurns(e) ==
+  LET r == e.rect  rp == <<RectPath(e.rect)>> IN
+  /\ RectNonEmpty(r)
+  /\ \A k \in 1..Len(e.res) : \A i \in 1..Len(e.res[k]) : InRect(r, e.res[k][i], 1)
+  /\ \A k \in 1..Len(e.probes) :
+       LET p == e.probes[k] IN
+       (FarClosed(p, rp, Band4) /\ FarClosed(p, e.paths, Band4)) =>
+          IF StrictInRect(r, p) THEN (WnPaths(p, e.res) - WnPaths(p, e.paths)) % 2 = 0 ELSE WnPaths(p, e.res) = 0
+  /\ \E k \in 1..Len(e.paths) : ~SimplePath(e.paths[k])       \* only self-overlapping paths can wind more than once
+
+\* signature of the listed finding "rectclip-corners-on-path": a path that never crosses into the rectangle
+\* has all four rectangle corners ON its boundary (edges running along the rectangle's sides); the
+\* implementation's path1ContainsPath2 then has no inside/outside vote and assumes containment
+C06CornersOnPath(e) ==
+  \E k \in 1..Len(e.paths) : Len(e.paths[k]) >= 3 /\
+     \A c \in 1..4 : OnClosedPath(RectPath(e.rect)[c], e.paths[k])
+
 RectClipOK(e, idx) ==
   /\ Chk("OUT", idx, OutOK(e))
   /\ Has(e, "ARGS") => Chk("ARGS", idx, e.argsSame)
   /\ Has(e, "DET") => Chk("DET", idx, e.res2same)
-  /\ Has(e, "C06") => Chk("C06", idx, C06OK(e))
+  /\ Has(e, "C06") => ChkF2("C06", idx, C06OK(e), "rectclip-even-turns", C06EvenTurns(e),
+                                                    "rectclip-corners-on-path", C06CornersOnPath(e))
 
 (***************************************************************************)
 (* Rectangle clipping of open polylines (C11).  Probes are points ON the   *)
@@ -498,10 +537,17 @@ C04OK(e) ==
               (T[k].isHole /\ WnPath(p, T[k].poly) # 0 /\ \A c \in 1..Len(T) : T[c].parent = k => WnPath(p, T[c].poly) = 0)
                  => InnermostOuter(T, p) = T[k].parent
 
+\* signature of the listed finding "tree-touching": two different result polygons come within the rounding
+\* band of each other (a vertex of one within 2 units of an edge of the other), which is where the
+\* implementation's containment test (path1InsidePath2) cannot decide the nesting
+TouchingPolys(e) ==
+  \E k, m \in 1..Len(e.tree) : k # m /\
+     \E i \in 1..Len(e.tree[k].poly) : ~FarClosedPath(e.tree[k].poly[i], e.tree[m].poly, Band4)
+
 TreeOpOK(e, idx) ==
   /\ Chk("OUT", idx, OutOK(e))
   /\ Has(e, "ARGS") => Chk("ARGS", idx, e.argsSame)
-  /\ Has(e, "C04") => Chk("C04", idx, C04OK(e))
+  /\ Has(e, "C04") => ChkF("C04", idx, C04OK(e), "tree-touching", Len(e.tree) = Len(e.flat) /\ TouchingPolys(e))
 
 (***************************************************************************)
 (* Open subject paths (C09).  All coordinates of the observation are in    *)
@@ -617,15 +663,6 @@ ButtOK(e, p, outer4, tol4) ==
     \/ Len(q) = 1 /\ ~FarSeg(p, q[1], q[1], outer4)
 
 \* precondition of C05: a simple polygon set, holes strictly inside, orientations alternating with depth
-SimplePath(path) ==
-  LET n == Len(path) IN
-  /\ n >= 3
-  /\ \A i \in 1..n : path[i] # Nxt(path, i)
-  /\ \A i, j \in 1..n : i < j =>
-       LET a == path[i] b == Nxt(path, i) c == path[j] d == Nxt(path, j) IN
-       IF j = i + 1 THEN ~OnSeg(d, a, b) /\ ~OnSeg(a, c, d)
-       ELSE IF i = 1 /\ j = n THEN ~OnSeg(c, a, b) /\ ~OnSeg(b, c, d)
-       ELSE ~SegsMeet(a, b, c, d)
 PathsApart(p, q) == \A i \in 1..Len(p), j \in 1..Len(q) : ~SegsMeet(p[i], Nxt(p, i), q[j], Nxt(q, j))
 DepthOf(paths, k) == Cardinality({j \in 1..Len(paths) : j # k /\ WnPath(paths[k][1], paths[j]) # 0})
 ValidPolySetG(paths, g) ==
